@@ -251,7 +251,24 @@ fn spec() -> Option<serde_json::Value> {
 }
 
 fn show(v: &[u8]) -> String {
+    if v.len() > 64 {
+        return format!("{}..({} bytes)", pretty_print_bytes(&v[..16]), v.len());
+    }
     pretty_print_bytes(v)
+}
+
+// a command element of a replay spec: [bytes] or {"repeat": [bytes], "times": n} (a large, highly compressible value)
+fn elem(v: &serde_json::Value) -> Vec<u8> {
+    if let Some(obj) = v.as_object() {
+        let unit: Vec<u8> = serde_json::from_value(obj["repeat"].clone()).expect("repeat");
+        let times = obj["times"].as_u64().unwrap_or(1) as usize;
+        let mut out = Vec::with_capacity(unit.len() * times);
+        for _ in 0..times {
+            out.extend_from_slice(&unit);
+        }
+        return out;
+    }
+    serde_json::from_value(v.clone()).expect("bytes")
 }
 
 // spec: {strategy, cmds: [[bytes..]..], expect_get: {key: bytes}}: after running the commands, GET and MGET of each
@@ -268,17 +285,32 @@ async fn verif_replay_compression() {
     let strategy = spec["strategy"].as_str().unwrap_or("Disabled").to_string();
     setup(&handler, &strategy).await;
     log.lock().unwrap().clear();
-    let cmds: Vec<Vec<Vec<u8>>> = serde_json::from_value(spec["cmds"].clone()).expect("cmds");
-    for c in cmds.iter() {
+    let cmds: Vec<Vec<Vec<u8>>> = spec["cmds"].as_array().expect("cmds").iter().map(|c| c.as_array().expect("cmd").iter().map(elem).collect()).collect();
+    // expect_replies: [[index of a GET / GETSET in cmds, expected bulk bytes | null]] - the reply the written history demands
+    let expect_replies: Vec<(usize, Option<Vec<u8>>)> = spec["expect_replies"]
+        .as_array()
+        .map(|a| a.iter().map(|p| (p[0].as_u64().unwrap_or(0) as usize, if p[1].is_null() { None } else { Some(elem(&p[1])) })).collect())
+        .unwrap_or_default();
+    for (i, c) in cmds.iter().enumerate() {
         let r = request(&handler, c.clone()).await;
         println!("\nVERIF-REPLAY: info {} -> {:?}", c.iter().map(|e| show(e)).collect::<Vec<_>>().join(" "), r.as_ref().map(|x| format!("{:?}", x).chars().take(120).collect::<String>()));
+        if let Some((_, want)) = expect_replies.iter().find(|(j, _)| *j == i) {
+            let ok = match (&r, want) {
+                (Ok(Resp::Bulk(BulkStr::Str(g))), Some(w)) => g == w,
+                (Ok(Resp::Bulk(BulkStr::Nil)), None) => true,
+                _ => false,
+            };
+            if !ok {
+                println!("\nVERIF-REPLAY: violated C20/value-not-byte-identical {} returned {:?}, expected {:?}", c.iter().map(|e| show(e)).collect::<Vec<_>>().join(" "), r.as_ref().map(|x| format!("{:?}", x).chars().take(120).collect::<String>()), want.as_ref().map(|w| show(w)));
+            }
+        }
         if let Err(e) = r {
             println!("\nVERIF-REPLAY: violated C20/no-reply {}", e);
         }
     }
     if let Some(obj) = spec["expect_get"].as_object() {
         for (k, v) in obj {
-            let want: Vec<u8> = serde_json::from_value(v.clone()).expect("bytes");
+            let want: Vec<u8> = elem(v);
             let got = request(&handler, vec![b"GET".to_vec(), k.as_bytes().to_vec()]).await;
             match got {
                 Ok(Resp::Bulk(BulkStr::Str(ref g))) if *g == want => (),
